@@ -163,8 +163,8 @@ MUTANTS = [
      "    for segment in key.iter() {\n        path.push(segment.as_str());\n    }",
      "    for segment in key.iter().skip(key.len().saturating_sub(2)) {\n        path.push(segment.as_str());\n    }")]),
   ("c14-vftable-item-registered-in-grandparent-when-nested", ["C14"], [("src/semantic/type_definition/vftable.rs",
-     "    let resolvee_vtable_path = resolvee_path\n        .parent()?\n        .join(",
-     "    let resolvee_vtable_path = resolvee_path\n        .parent()\n        .and_then(|p| if p.len() >= 3 { p.parent() } else { Some(p) })?\n        .join(")]),
+     "    let resolvee_vtable_path = parent.join(",
+     "    let parent = if parent.len() >= 3 { parent.parent().unwrap_or(parent) } else { parent };\n    let resolvee_vtable_path = parent.join(")]),
   ("c14-generated-file-not-rewritten", ["C14"], [("src/backends/rust.rs",
      '    std::fs::write(&path, output).context("failed to write file")?;',
      '    // Leave files alone that a previous run has generated already\n    let already_generated = std::fs::read_to_string(&path)\n        .map(|old| old.starts_with("#![allow(") && old.lines().count() == output.lines().count())\n        .unwrap_or(false);\n    if !already_generated {\n        std::fs::write(&path, output).context("failed to write file")?;\n    }')]),
